@@ -330,6 +330,27 @@ int main(int argc, char** argv)
         is >> kind;
         if (kind == "H")
             run_helix(is);
+        else if (kind == "G")
+        {
+            // the RZ field map as the params hold it (native units): grids and node values
+            auto const& d = w.rzmap->host_ref();
+            std::cout << "G " << hex(d.grids.data_z.front) << ' ' << hex(d.grids.data_z.back) << ' '
+                      << hex(d.grids.data_z.delta) << ' ' << d.grids.data_z.size << ' '
+                      << hex(d.grids.data_r.front) << ' ' << hex(d.grids.data_r.back) << ' '
+                      << hex(d.grids.data_r.delta) << ' ' << d.grids.data_r.size;
+            for (auto i : range(d.fieldmap.size()))
+            {
+                auto const& el = d.fieldmap[ItemId<size_type>(i)];
+                std::cout << ' ' << hex(el.value_z) << ' ' << hex(el.value_r);
+            }
+            std::cout << "\n";
+        }
+        else if (kind == "R")
+        {
+            Real3 pos = rd3(is);
+            RZMapField field{w.rzmap->host_ref()};
+            std::cout << "R " << field(pos) << "\n";
+        }
         else if (kind == "E")
             run_e2e(w, is);
         else
